@@ -18,6 +18,7 @@ let () =
     "ctlser", Xdp.cmd_ctlser;
     "uids", Xconc.cmd_uids;
     "transport", Xconc.cmd_transport;
+    "apiorder", Xconc.cmd_apiorder;
   ]
 
 let () =
